@@ -26,6 +26,8 @@
 size_t __sanitizer_get_current_allocated_bytes(void);
 #ifdef YARA_VERIF
 extern size_t yr_verif_arena_initial_size;   /* hook H1 (compiler.c) */
+extern void (*yr_verif_atom_hook)(uint32_t string_idx, const uint8_t* bytes, int length, int backtrack);   /* H3 */
+extern void (*yr_verif_cand_hook)(size_t pos, uint32_t string_idx, int backtrack);                         /* H4 */
 #endif
 
 #ifdef YV_FAULT
@@ -128,6 +130,22 @@ static void on_fatal(int sig)
   if (write(fileno(out), msg, n)) {}
   _exit(5);
 }
+
+#ifdef YARA_VERIF
+static char* atom_buf = NULL; static size_t atom_len = 0, atom_cap = 0;
+static void on_atom(uint32_t sidx, const uint8_t* bytes, int length, int backtrack)
+{
+  /* buffered: the hook fires while the Compile event line is being written */
+  if (atom_cap - atom_len < 256) { atom_cap = atom_cap ? atom_cap * 2 : (1 << 16); atom_buf = (char*) realloc(atom_buf, atom_cap); }
+  atom_len += snprintf(atom_buf + atom_len, atom_cap - atom_len, "{\"e\":\"Atom\",\"s\":%u,\"bt\":%d,\"b\":[", sidx, backtrack);
+  for (int i = 0; i < length; i++) atom_len += snprintf(atom_buf + atom_len, atom_cap - atom_len, i ? ",%d" : "%d", bytes[i]);
+  atom_len += snprintf(atom_buf + atom_len, atom_cap - atom_len, "]}\n");
+}
+static void on_cand(size_t pos, uint32_t sidx, int backtrack)
+{
+  fprintf(out, "{\"e\":\"Cand\",\"pos\":%zu,\"s\":%u,\"bt\":%d}\n", pos, sidx, backtrack);
+}
+#endif
 
 /* ---------- parsing helpers ---------- */
 static int hexv(int c) { return isdigit(c) ? c - '0' : (tolower(c) - 'a' + 10); }
@@ -617,6 +635,9 @@ int main(int argc, char** argv)
       else if (!strcmp(tok[1], "quietnomatch")) default_quiet = atoi(tok[2]);
       else if (!strcmp(tok[1], "iterlog")) iter_log = atoi(tok[2]);
       else if (!strcmp(tok[1], "flushscan")) flush_scan = atoi(tok[2]);
+#ifdef YARA_VERIF
+      else if (!strcmp(tok[1], "achooks")) { yr_verif_atom_hook = atoi(tok[2]) ? on_atom : NULL; yr_verif_cand_hook = atoi(tok[2]) ? on_cand : NULL; }
+#endif
       else if (!strcmp(tok[1], "walkmodules")) { walk_modules = atoi(tok[2]); if (walk_modules && !freopen("/dev/null", "w", stdout)) {} }
       else if (!strcmp(tok[1], "hang")) hang_seconds = atoi(tok[2]);
       else if (!strcmp(tok[1], "failat")) { yv_fail_at = atol(tok[2]); yv_alloc_count = 0; yv_faults_injected = 0; yv_fault_enabled = 1; }
@@ -779,6 +800,9 @@ int main(int argc, char** argv)
         unlink(path);
       }
       fprintf(out, "],\"ret\":%d,\"errors\":%d,\"warnings\":%d,\"code\":%d}\n", r, d.errors, d.warnings, r > 0 ? (d.first_code ? d.first_code : compilers[c]->last_error) : 0);
+#ifdef YARA_VERIF
+      if (atom_len) { fwrite(atom_buf, 1, atom_len, out); atom_len = 0; }
+#endif
       free(src.p);
     }
     else if (!strcmp(op, "getrules"))
